@@ -91,10 +91,15 @@ def cases(tier, seed):
     nm = {'quick': 16, 'thorough': 1500}[tier]
     for i in range(nm):
         yield {'kind': 'mpbc', 'seed': seed, 'i': i}
+    if tier == 'thorough':
+        yield {'kind': 'suite'}      # the repository's own tests as a further workload, run under this check's monitors
 
 def run_case(rec, case):
     _state['case'] = case
     k = case['kind']
+    if k == 'suite':
+        from verif.suite import run_suite
+        rec.case(case, nontrivial=True); run_suite(rec, 'c10', case); return
     if k == 'rls': _rls(rec, case)
     elif k == 'bc': _bc(rec, case)
     elif k == 'ic01': _ic01(rec, case)
